@@ -78,8 +78,8 @@ package api
 // bytes the Reader has delivered, in order: no byte is lost, duplicated or
 // reordered however the Reader chunks them.
 //@ axiom bufpool_elems: forall x any :: sync.poolElem(addr(bufPool), x) ==> (x != nil && dyntype(x) == typeid(ByteSlice) && len(cast(ByteSlice, x)) == 0 && cap(cast(ByteSlice, x)) > 0)
-//@ pure func sdOK(s *StreamDecoder) bool = s != nil && 0 <= s.scanp && s.scanp <= len(s.buf) && s.scanned >= 0 && s.scanned <= 4611686018427387904
-//@ pure func sdSync(s *StreamDecoder) bool = int(s.scanned) + len(s.buf) == $rpos && (forall k int :: 0 <= k && k < len(s.buf) ==> s.buf[k] == $rin[int(s.scanned) + k])
+//@ pure func sdOK(s *StreamDecoder) bool = s != nil && 0 <= s.scanp && s.scanp <= len(s.buf) && s.scanned >= 0 && len(s.buf) <= 140737488355328
+//@ pure func sdSync(s *StreamDecoder) bool = int(s.scanned) + len(s.buf) == $rpos && (forall j int :: int(s.scanned) <= j && j < int(s.scanned) + len(s.buf) ==> s.buf[j - int(s.scanned)] == $rin[j])
 
 //@ func (*StreamDecoder).scan props C17
 //@   requires sdOK(self)
@@ -93,7 +93,7 @@ package api
 // realloc: contents and length are kept, and afterwards there is room to read at least one byte.
 // (minLeftBufferShift is a package variable that is only initialised, to 1)
 //@ func realloc props C17
-//@   requires buf != nil && minLeftBufferShift == 1 && cap(*buf) <= 1152921504606846976
+//@   requires buf != nil && minLeftBufferShift == 1
 //@   modifies *buf
 //@   ensures len(*buf) == old(len(*buf)) && cap(*buf) > len(*buf)
 //@   ensures forall k int :: 0 <= k && k < len(*buf) ==> (*buf)[k] == old((*buf)[k])
@@ -106,3 +106,15 @@ package api
 //@   requires self != nil
 //@   modifies self.err, self.buf
 //@   ensures self.err == err && self.buf == nil
+
+// refill: slides the unread bytes to the front and appends what one Read
+// delivers; the buffer stays in sync with the stream and InputOffset is unchanged.
+//@ func (*StreamDecoder).refill props C17
+//@   requires sdOK(self) && sdSync(self) && self.r != nil && minLeftBufferShift == 1 && $rpos >= 0 && $rpos <= 4611686018427387904
+//@   modifies self.scanned, self.buf, self.scanp, self.buf[_], $rpos
+//@   ensures sdOK(self) && self.scanp == 0 && $rpos >= old($rpos)
+//@   ensures int(self.scanned) == old(int(self.scanned) + self.scanp)
+//@   ensures int(self.scanned) + len(self.buf) == $rpos
+//@   ensures sdSync(self)
+//@   ensures len(self.buf) >= old(len(self.buf) - self.scanp)
+//@   ensures self.err == old(self.err) && self.r == old(self.r)
